@@ -272,7 +272,12 @@ func c19Project(lines []c19Line, dir string) []c19Call {
 			if isnum && fd >= 0 {
 				fds[strconv.FormatInt(fd, 10)] = name
 			}
-			if flags == "O_RDWR|O_CREAT|O_TRUNC|O_CLOEXEC" && name != "" {
+			// create-or-truncate for writing, whatever the other flags and the permission bits are
+			fl := map[string]bool{}
+			for _, f := range strings.Split(flags, "|") {
+				fl[f] = true
+			}
+			if fl["O_CREAT"] && fl["O_TRUNC"] && (fl["O_RDWR"] || fl["O_WRONLY"]) && name != "" {
 				add(i, l, fmt.Sprintf("OCreat %s %s", coqString(name), okStr(l)))
 			} else {
 				add(i, l, fmt.Sprintf("OOther %s", coqString(name)))
